@@ -1,12 +1,22 @@
 """C11: ergodic trimming keeps exactly the heaviest strongly connected component."""
-import itertools
+import itertools, os, sys
 import numpy as np
-from core import cz, cn, cb, clist
+from core import cz, cn, cb, clist, VERIF
+sys.path.insert(0, os.path.join(VERIF, "translator"))
+import tr_trim
 
 PID = "C11"
 PROPS_FILE = "Props/C11.v"
-MODEL_TARGETS = ["Model/Trim.vo"]
-CASE_HEADER = "From Coq Require Import List ZArith.\nFrom EV Require Import Trim.\nImport ListNotations.\n"
+MODEL_TARGETS = ["Model/Trim.vo", "Gen/TrimGen.vo", "Model/TrimView.vo"]
+GEN_FILES = ["Gen/TrimGen.v"]
+CASE_HEADER = ("From Coq Require Import List ZArith.\nFrom EV Require Import Trim TrimBase TrimGen TrimView.\n"
+               "Import ListNotations.\n")
+
+
+def translate(repo):
+    return tr_trim.translate(repo)
+
+
 RULE = ("count matrices over 1..8 states built from planted strongly connected components (random cycle + chords "
         "at or above the threshold) joined by one-way bridges along a random component order, isolated states, "
         "sub-threshold counts anywhere (they carry weight but are no edges), state ids shuffled; plus fully random "
@@ -15,8 +25,17 @@ RULE = ("count matrices over 1..8 states built from planted strongly connected c
         "of 9 sparse containers, and (threshold 1) MSM(trim=True/False).fit on trajectories realising the matrix; "
         "TrimMapping alone on injective (original, mapped) pair lists in arbitrary order; "
         "thorough adds every 0/1 digraph on <= 3 states with two weightings and every 0/1 digraph on 4 states; "
-        "non-trivial := >= 2 components w.r.t. the threshold and at least one state removed")
-TRUSTED = ["modelled not verified: scipy.sparse.csgraph.connected_components(connection='strong') is specified as "
+        "non-trivial := >= 2 components w.r.t. the threshold and at least one state removed. "
+        "Every result is compared twice inside Coq: with the hand model (impl_agrees) and with the code GENERATED "
+        "from the current source of trim_disconnected / TrimMapping / MSM.fit (gen_impl_agrees, gen_fit_agrees, "
+        "gen_mapping_agrees), the latter run on the input as given: for sparse containers the stored entries, "
+        "for the split-COO stream and for MSM.fit the unit entries themselves")
+TRUSTED = ["translator/tr_trim.py (typed statement-by-statement translation of trim_disconnected, TrimMapping.__init__ / "
+           "to_mapped and, through tr_msm.tr_fit, of MSM.fit's trimming step; rejects aliasing assignments and any "
+           "statement outside its table) and the reading of the NumPy / SciPy / Python calls in coq/Base/TrimBase.v "
+           "(sparse container = shape + stored entries summed by toarray; masked / np.ix_ / row / column assignment; "
+           "sum(axis); boolean-mask indexing; np.where; np.argmax = first maximum; zip objects are truthy)",
+           "modelled not verified: scipy.sparse.csgraph.connected_components(connection='strong') is specified as "
            "mutual reachability (its label numbering is not modelled: on equal maximum weights any maximiser is accepted)",
            "modelled not verified: NumPy boolean/fancy indexing (np.ix_, np.where), sparse container constructors / toarray, "
            "Python dict comprehension (insertion-ordered association list)",
@@ -152,6 +171,21 @@ def generate(rng, tier):
 _SPLIT = [False]   # build COO input with every count split into unit entries (as assigns_to_counts returns it)
 
 
+def _split_entries(C):
+    """the unit entries (row, col) a split COO input is built from, in the order they are stored"""
+    rows, cols = [], []
+    for i in range(len(C)):
+        for j in range(len(C[i])):
+            rows += [i] * int(C[i][j])
+            cols += [j] * int(C[i][j])
+    order = np.random.RandomState(len(rows)).permutation(len(rows))
+    return [rows[k] for k in order], [cols[k] for k in order]
+
+
+def _is_split(name, C, split):
+    return bool(split) and name in ("coo_matrix", "coo_array") and len(C) > 0 and all(len(r) == len(C) for r in C)
+
+
 def _container(name, C):
     import scipy.sparse as sp
     a = np.array(C, dtype=np.int64)
@@ -159,14 +193,9 @@ def _container(name, C):
         a = a.reshape((len(C), 0))
     if name == "dense":
         return a
-    if _SPLIT[0] and name in ("coo_matrix", "coo_array") and a.ndim == 2 and a.shape[0] == a.shape[1] and a.size:
-        rows, cols = [], []
-        for i in range(a.shape[0]):
-            for j in range(a.shape[1]):
-                rows += [i] * int(a[i, j])
-                cols += [j] * int(a[i, j])
-        order = np.random.RandomState(len(rows)).permutation(len(rows))
-        return getattr(sp, name)((np.ones(len(rows), dtype=np.int64), (np.array(rows, dtype=int)[order], np.array(cols, dtype=int)[order])),
+    if _is_split(name, C, _SPLIT[0]):
+        rows, cols = _split_entries(C)
+        return getattr(sp, name)((np.ones(len(rows), dtype=np.int64), (np.array(rows, dtype=int), np.array(cols, dtype=int))),
                                  shape=a.shape)
     return getattr(sp, name)(a)
 
@@ -383,25 +412,55 @@ def _cres(r):
         clist(r["keep"], cn, "nat"), _cmat(r["counts"]), _cpairs(r["to_original"]), _cpairs(r["to_mapped"]), cont)
 
 
+def _cinp(name, C, split=False):
+    """the input as the code receives it: NdArray cells | SparseM format rows cols stored-entries"""
+    if name == "dense":
+        return "(NdArray %s)" % _cmat(C)
+    nr = len(C)
+    nc = len(C[0]) if C else 0
+    if _is_split(name, C, split):
+        rows, cols = _split_entries(C)
+        st = [(i, j, 1) for i, j in zip(rows, cols)]
+    else:
+        st = [(i, j, C[i][j]) for i in range(nr) for j in range(len(C[i])) if C[i][j] != 0]
+    return "(SparseM %d %d %d %s)" % (SPARSE.index(name), nr, nc,
+                                      clist(st, lambda e: "(%s, %s, %s)" % (cn(e[0]), cn(e[1]), cz(e[2])), "(nat * nat * Z)"))
+
+
+def _cfit_inp(C):
+    """assigns_to_counts returns a COO matrix with one stored unit entry per observed transition"""
+    st = [(i, j, 1) for i in range(len(C)) for j in range(len(C)) for _ in range(C[i][j])]
+    return "(SparseM %d %d %d %s)" % (SPARSE.index("coo_matrix"), len(C), len(C),
+                                      clist(st, lambda e: "(%s, %s, %s)" % (cn(e[0]), cn(e[1]), cz(e[2])), "(nat * nat * Z)"))
+
+
 def coq_check(c, r):
     if c.get("kind") == "tm":
         m = r["main"]
         if str(m.get("err", "")).startswith("Unexpected"):
             return "false"
         res = "(@None (dict * dict))" if "err" in m else "(Some (%s, %s))" % (_cpairs(m["to_original"]), _cpairs(m["to_mapped"]))
-        return "mapping_agrees %s %s" % (_cpairs(c["pairs"]), res)
+        return "((mapping_agrees %s %s) && (gen_mapping_agrees %s %s))%%bool" % (
+            _cpairs(c["pairs"]), res, _cpairs(c["pairs"]), res)
     if any(isinstance(v, dict) and str(v.get("err", "")).startswith("Unexpected") for v in r.values()) or "main" not in r:
         return "false"
     C, thr, ren, cont = _cmat(c["C"]), cz(c["thr"]), c["renumber"], _ccont(c["cont"])
-    terms = ["impl_agrees %s %s %s %s %s" % (thr, C, cb(ren), cont, _cres(r["main"]))]
+    inp = _cinp(c["cont"], c["C"], c.get("split"))
+    terms = ["impl_agrees %s %s %s %s %s" % (thr, C, cb(ren), cont, _cres(r["main"])),
+             "gen_impl_agrees %s %s %s %s" % (inp, thr, cb(ren), _cres(r["main"]))]
     if "other" in r:
         terms.append("impl_agrees %s %s %s %s %s" % (thr, C, cb(not ren), cont, _cres(r["other"])))
+        terms.append("gen_impl_agrees %s %s %s %s" % (inp, thr, cb(not ren), _cres(r["other"])))
     if "dense" in r:
         terms.append("impl_agrees %s %s %s Dense %s" % (thr, C, cb(ren), _cres(r["dense"])))
+        terms.append("gen_impl_agrees (NdArray %s) %s %s %s" % (C, thr, cb(ren), _cres(r["dense"])))
     if "fit" in r:
         coo = _ccont("coo_matrix")
         terms.append("fit_agrees true %s %s %s" % (C, coo, _cres(r["fit"])))
         terms.append("fit_agrees false %s %s %s" % (C, coo, _cres(r["fit_notrim"])))
+        finp = _cfit_inp(c["C"])
+        terms.append("gen_fit_agrees true %s %s" % (finp, _cres(r["fit"])))
+        terms.append("gen_fit_agrees false %s %s" % (finp, _cres(r["fit_notrim"])))
     return "(" + " && ".join("(%s)" % t for t in terms) + ")%bool"
 
 
